@@ -116,7 +116,7 @@ func init() {
 	run.Props["C03"] = &run.PropSpec{ID: "C03", Level: "exploration",
 		Rule:     "one evaluation = one generated (pool, trade) case run through the real Pool.SwapOutAmtGivenIn / SwapInAmtGivenOut and compared with the exact integer weighted-product inequality (constant product: reserves log-uniform in [1,1e18], reduced weights 1..64, fee in [0,2%] x discount, trade from 1 unit to multiples of the reserve; derived round-trip and split-trade checks) or with value-in >= value-out at the fake oracle prices (oracle pools: accounted balances on/off, external-liquidity ratio 1..100, weight-breaking params over their range); plus, on the full app, the value the oracle pool pays vs receives in every AMM end-blocker; distinct = the generated tuple",
 		Monitors: func() []mon.Monitor { return []mon.Monitor{mon.NewC03()} },
-		Plan:     plan([]run.PlanItem{pi("pure-amm", 24), pi("swap-batch", 8)}, []run.PlanItem{pi("pure-amm", 48), pi("swap-batch", 16), pi("mix", 8)}),
+		Plan:     plan([]run.PlanItem{pi("pure-amm", 24), pi("swap-batch", 8), pi("forced", 2)}, []run.PlanItem{pi("pure-amm", 48), pi("swap-batch", 16), pi("mix", 8), pi("forced", 8)}),
 		Assume:   []string{"reserves <= 1e18 for the one-base-unit verdict; allowance 1 unit (equal weights) or 1e-8 of the reserve + 1 (unequal weights), as the property grants", "the two keeper interfaces the pool methods take (oracle price table, accounted-balance table) are faked in the pure part"}}
 	run.Props["C05"] = &run.PropSpec{ID: "C05", Level: "exploration",
 		Rule:     "one evaluation = one generated (pool, join or exit) case through the real Pool.JoinPool / ExitPool (constant product 2-4 assets, weights 1..16, deposits from dust to multiples of the pool, requested shares from dust to all; oracle pools with a fake price table) compared with exact integer per-share inequalities, the value function prod(B^w)/S, join-then-exit round trips and the book-consistency / positive-reserve rules; plus, on the full app, per-share value of the remaining liquidity around every join / exit; distinct = the generated tuple",
